@@ -4,7 +4,7 @@ C07 — property theorems.
 Statement of the property (full strength):
     ∀ D T (h : List OpO) (p : Probe), runProbeNew D T (runO D h s₀) p = freshResult D T p
     ∀ D T h p e, (runO D h s₀).execs[e]? has backend p.b → runProbeOn D T (runO D h s₀) p e = freshResult D T p
-It is FALSE of the code as it stands (eleven `leak_counterexample_*` theorems below, each replayed on
+It is FALSE of the code as it stands (twelve `leak_counterexample_*` theorems below, each replayed on
 the real code and listed in known_findings.jsonl).  What is proved is the statement for every
 history all of whose operations are benign for the probe (`benignNew`, `benignOn`: decidable, the
 excluded clauses are exactly the counterexample classes), for every translator function `T` and
@@ -669,6 +669,41 @@ theorem leak_counterexample_extended_md :
     ∃ D T h p e, e < (runO D h s₀).execs.length ∧ ¬ HistoryIndependentOn D T h p e :=
   ⟨D₀, Tconst, xmdStays.1.1, xmdStays.1.2, xmdStays.2, by decide, by unfold HistoryIndependentOn; decide⟩
 
+/-! ### the caller's AST object translated again -/
+
+/-- without metadata a re-used object is the query itself -/
+theorem reuseProbe_of_no_md (p : Probe) (hmd : p.md = []) : reuseProbe p = p := by
+  cases p; simp only [reuseProbe] at *; simp [hmd]
+
+/-- **Translating the same AST object again (existing executor, partial).**  FULL STATEMENT (false,
+`leak_counterexample_reused_ast`): `runProbeOn D T (runO D h s₀) (reuseProbe p) e = freshResult D T p`
+for every probe.  PROVED: for a query that carries no `MetaData`, handing the object that earlier
+operations of the history already translated (they are ordinary `.translate _ p.q [] _` entries of
+`h`, successful or failed, on this or on other executors) to the executor `e` gives exactly what a
+fresh process gives for the query, under the same hypotheses as `history_indep_on_partial`. -/
+theorem retranslation_indep_on_partial (D : Defaults) (T : Translator) (h : List OpO) (p : Probe) (e : Nat)
+    (hmd : p.md = []) (hb : benignRunOn D p e s₀ h = true) (he : e < (runO D h s₀).execs.length) :
+    runProbeOn D T (runO D h s₀) (reuseProbe p) e = freshResult D T p := by
+  rw [reuseProbe_of_no_md p hmd]
+  exact history_indep_on_partial D T h p e hb he
+
+/-- **…and on a new executor (partial).** -/
+theorem retranslation_indep_new_partial (D : Defaults) (T : Translator) (h : List OpO) (p : Probe)
+    (hmd : p.md = []) (hb : benignRunNew D p s₀ h = true) :
+    runProbeNew D T (runO D h s₀) (reuseProbe p) = freshResult D T p := by
+  rw [reuseProbe_of_no_md p hmd]
+  exact history_indep_partial D T h p hb
+
+open Witness in
+/-- (h) With `MetaData` the statement is false: the first translation removed the `MetaData` nodes
+from the caller's object, so the second translation of the object that declared
+`xAOD::Jet::pt → int` — after a history that is benign — no longer sees the declaration and differs
+from what a fresh process gives for that query (listed finding `reusedAst`, replayed on the real code). -/
+theorem leak_counterexample_reused_ast :
+    ∃ D T h p e, e < (runO D h s₀).execs.length ∧ benignRunOn D p e s₀ h = true ∧
+      runProbeOn D T (runO D h s₀) (reuseProbe p) e ≠ freshResult D T p :=
+  ⟨D₀, Tkey ("xAOD::Jet", "pt"), reusedAst.1.1, reusedAst.1.2, reusedAst.2, by decide, by decide, by decide⟩
+
 /-- (g) The name counter does NOT "only rename": `unique_name` concatenates name and index, so the
 columns `x1` (drawn at counter 1, as in a fresh process) and `x` (drawn ten names later) get the SAME
 member `_x11`; twelve names later in the life of the process (`_x113`, `_x23`) they are distinct.  The
@@ -680,6 +715,12 @@ theorem leak_counterexample_name_counter :
   decide
 
 /-! ### non-vacuity: the hypotheses are satisfiable by histories that really do something -/
+
+open Witness in
+/-- a metadata-free query whose object was translated twice before (once successfully, once on a
+second executor) satisfies the hypotheses of `retranslation_indep_on_partial` -/
+example : (⟨.atlas, [], jetPt, []⟩ : Probe).md = [] ∧ benignRunOn D₀ ⟨.atlas, [], jetPt, []⟩ 0 s₀
+    [.new .atlas, .translate 0 jetPt [] okRes, .new .atlas, .translate 1 jetPt [] okRes] = true := by decide
 
 open Witness in
 /-- a history with a declaration on the probe's own key that succeeds, a failure in
